@@ -69,6 +69,16 @@ def run(chk: core.Check, tier: str, seed: int) -> None:
         for sc in (0, "abc", None, True, 1.5):
             recs.append(impl.rec_find(jp, f"$[?{e}]", sc))
             recs.append(impl.rec_find(jp, f"$.s[?{e}]", {"s": sc, "x": 1}))
+    # one compiled query (rec_find caches by text) applied to a run of short-lived documents that differ
+    # only in what '$' sees: anything remembered about the previous document's root shows up here
+    for q in ["$.items[?@.k == $.want]", "$.items[?$.on]", "$.items[?@.k == $.want || $.all]", "$..[?@ == $.want]",
+              "$.items[?@[?@ == $.want]]", "$.items[?count($.items[?@.k == $.want]) == 1]", "$.items[?@.k != $.nope]"]:
+        for k in range(24):
+            d = {"want": k % 3, "on": (k % 4 == 0) or None, "all": k % 5 == 0, "items": [{"k": 0}, {"k": 1}, {"k": 2}, [k % 3], k % 3]}
+            if d["on"] is None:
+                del d["on"]
+            recs.append(impl.rec_find(jp, q, d))
+            del d
     n_sys = len(recs)
     n_rand = 3000 if tier == "quick" else 80000
     for k in range(n_rand):
@@ -89,7 +99,7 @@ def run(chk: core.Check, tier: str, seed: int) -> None:
     chk.sample({"query": core.dec_text(recs[40]["q"]), "locs": recs[40]["locs"]})
     chk.sample({"query": core.dec_text(recs[-1]["q"]), "doc": core.dec_value(recs[-1]["doc"]), "locs": recs[-1]["locs"]})
     common.judge(chk, recs, "c02", what="Trace: filter find() records vs Eval.tla",
-                 only=lambda c: not c.startswith(("C03", "C04", "C05", "C13")))
+                 only=lambda c: c.startswith("C13 find") or not c.startswith(("C03", "C04", "C05", "C13")))
     chk.rule = (
         f"{n_sys} systematic records ({len(ATOMS)} atoms and their negations, {len(exprs) - 2 * len(ATOMS)} seeded "
         "and/or/not/paren combinations, minimal and fully parenthesised, on an array and an object with 18 child kinds, "
